@@ -15,6 +15,7 @@ import traceback
 
 VERIF = os.path.dirname(os.path.dirname(os.path.abspath(__file__)))
 REPO = os.environ.get("VT_REPO", "/repo")           # set by run.py before tracklib is imported
+SHRINK_CPU_S = 90                                     # CPU seconds granted to shrinking one witness (the verdict never depends on it)
 CASE_TIMEOUT_S = 120                                  # non-termination guard in CPU seconds of the case (never wall clock: load must not matter)
 
 
@@ -43,6 +44,12 @@ class _Fail(Exception):
 
 class _CaseTimeout(BaseException):
     pass
+
+
+class _StopShard(KeyboardInterrupt):
+    """Internal (a KeyboardInterrupt subclass so that Hypothesis re-raises it at once instead of shrinking it):
+    a non-termination was confirmed; the verdict of this shard is settled, further cases would only burn
+    the CPU budget again and again (every case of a tree with such a defect may hang)."""
 
 
 # ----------------------------------------------------------------------------------------------
@@ -329,13 +336,24 @@ class ShardRunner:
         self.known = known_keys(prop)
         self.session_excluded = set()
         self.target = None            # key being shrunk
+        self.hangs = 0
+        self.shrink_t0 = 0.0
         self.last_fail = None
         self.violations = []
 
     # one evaluation ---------------------------------------------------------------------------
     def evaluate(self, case, hyp):
-        info, bad = run_body(self.sub, case)
         shrinking = self.target is not None
+        if shrinking and self.last_fail is not None and time.process_time() - self.shrink_t0 > SHRINK_CPU_S:
+            # the violation is established; only the minimality of its witness is given up.  (A defect that makes every
+            # call slow - a predecessor chain thousands of hops long, say - would otherwise make shrinking take hours.)
+            k, m, c = self.last_fail
+            if k not in self.session_excluded:
+                self.violations.append({"subcheck": self.sub.name, "key": k, "msg": "[witness not fully shrunk: shrinking "
+                                        "stopped after %d CPU-s] %s" % (SHRINK_CPU_S, m), "case": jsonable(c)})
+                self.session_excluded.add(k)
+            raise _StopShard()
+        info, bad = run_body(self.sub, case)
         if shrinking:
             self.stats.shrink_evals += 1
         else:
@@ -358,6 +376,18 @@ class ShardRunner:
             if not shrinking:
                 self.stats.known[key] += 1
             return
+        if key == "hang":
+            # not shrunk (every shrink attempt may cost the whole CPU budget again) and not searched behind: recorded as it
+            # is, the next hang in this process gets a short budget, and after the third one the shard stops
+            global CASE_TIMEOUT_S
+            self.hangs += 1
+            CASE_TIMEOUT_S = min(CASE_TIMEOUT_S, 10)
+            if key not in self.session_excluded:
+                self.violations.append({"subcheck": self.sub.name, "key": key, "msg": msg, "case": jsonable(case)})
+                self.session_excluded.add(key)
+            if hyp or self.hangs >= 3:
+                raise _StopShard()
+            return
         if key in self.session_excluded:
             return
         if hyp:
@@ -365,6 +395,8 @@ class ShardRunner:
                 self.target = key
             if key != self.target:
                 return                # keep the shrinker on one root cause
+            if self.last_fail is None or self.last_fail[0] != key:
+                self.shrink_t0 = time.process_time()
             self.last_fail = (key, msg, case)
             raise _Fail(key, msg, case)
         self.violations.append({"subcheck": self.sub.name, "key": key, "msg": msg, "case": jsonable(case)})
@@ -384,6 +416,7 @@ class ShardRunner:
         strat = self.sub.strategy()
         for rnd in range(6):          # one root cause per round, then excluded and searched on
             self.target = None
+            self.last_fail = None
             sd = derive_seed(self.seed, self.prop, self.sub.name, self.shard, rnd)
 
             @hypothesis.seed(sd)
@@ -403,11 +436,13 @@ class ShardRunner:
                 self.violations.append({"subcheck": self.sub.name, "key": f.key, "msg": f.msg,
                                         "case": jsonable(f.case)})
                 self.session_excluded.add(f.key)
-            except HarnessError:
+            except (HarnessError, _StopShard):
                 raise
             except BaseException as e:
                 if isinstance(e, KeyboardInterrupt):
                     raise
+                if any(isinstance(x, _StopShard) for x in (getattr(e, "exceptions", None) or ())):
+                    raise _StopShard()
                 # Flaky / FailedHealthCheck / anything else from the library
                 inner = getattr(e, "exceptions", None)
                 if inner:
@@ -431,9 +466,12 @@ class ShardRunner:
                     "".join(traceback.format_exception(type(e), e, e.__traceback__))[-3000:]))
 
     def run(self):
-        if self.sub.enum is not None and (self.tier == "thorough" or self.sub.enum_in_quick):
-            self.run_enum()
-        if self.sub.strategy is not None:
-            n = max(1, self.sub.ncases(self.tier) // self.nshards)
-            self.run_hyp(n)
+        try:
+            if self.sub.enum is not None and (self.tier == "thorough" or self.sub.enum_in_quick):
+                self.run_enum()
+            if self.sub.strategy is not None:
+                n = max(1, self.sub.ncases(self.tier) // self.nshards)
+                self.run_hyp(n)
+        except _StopShard:
+            self.stats.classes["shard-stopped-after-confirmed-non-termination"] += 1
         return {"sub": self.sub.name, "stats": self.stats.dump(), "violations": self.violations}
